@@ -314,8 +314,8 @@ func (n *node[T]) checkAmbiguous(pattern string, hasNonString bool) (*node[T], b
 		}
 		s0 := segs[0]
 
-		if seg.IsAmbiguous(s0) {
-			node, hasNonString, err := c.checkAmbiguous(pattern[s0.AmbiguousLen():], true)
+		if l := seg.AmbiguousPrefix(s0); l > 0 { // c 可能只是 s0 的前半部分
+			node, hasNonString, err := c.checkAmbiguous(pattern[l:], true)
 			if err != nil {
 				return nil, false, err
 			}
